@@ -121,7 +121,7 @@ func C01(ctx *core.Ctx) int {
 				case o.Kind == "ERR" && wallClockAnswer(o.ErrText):
 					st.blockers[l+": per-command wall-clock limit of the driver (not a verdict)"]++
 				case o.Kind == "ERR":
-					ctx.Report(fmt.Sprintf("%s|encoder fails|%s|%s", l, errWord(o.ErrText), optsInForce(pc.Prog)),
+					ctx.Report(fmt.Sprintf("%s|encoder fails|%s|%s", l, errWord(o.ErrText), progClass(pc.Prog.Name)),
 						fmt.Sprintf("program %s message %s: %s\n%s", pc.Prog.Name, m.ID, o.ErrText, core.Trunc(pc.Text, 500)), rep)
 				default:
 					got, err := hex.DecodeString(o.Hex)
@@ -131,7 +131,7 @@ func C01(ctx *core.Ctx) int {
 					st.distinct[o.Hex] = true
 					if d := wireDiff(pc.Encs[i], got); d != "" {
 						rep["got"] = o.Hex
-						ctx.Report(fmt.Sprintf("%s|%s|%s", l, d, optsInForce(pc.Prog)),
+						ctx.Report(fmt.Sprintf("%s|%s|%s", l, d, optsFor(pc.Prog, d)),
 							fmt.Sprintf("program %s message %s\nvalue     %s\nreference %s\n%-9s %s\n%s", pc.Prog.Name, m.ID, core.Trunc(rep["value"].(string), 300), core.Trunc(hex.EncodeToString(pc.Encs[i].Bytes), 300), l, core.Trunc(o.Hex, 300), core.Trunc(pc.Text, 600)), rep)
 					}
 				}
